@@ -123,11 +123,17 @@ def _work(item):
                                         'exc': type(ex).__name__, 'msg': str(ex)[:200],
                                         'unpop': unpop, 'hazard': hazard, 'overlap': overlap})
                 continue
+            first_call = None
             for ti, tup in enumerate(lst['tuples']):
                 args = dict(concretise_mixed(g, lst, tup, use_names))
                 exp = sem[li][ti]
                 try:
                     res = func(*[args[k_] for k_ in keys])
+                    if ti == 0:
+                        r0 = [res] if len(outs) == 1 else list(res)
+                        first_call = ([args[k_] for k_ in keys],
+                                      [V.show(V.alpha(R._first(v.value if hasattr(v, 'ranges') else v)))
+                                       for v in r0])
                 except BaseException as ex:  # noqa
                     if isinstance(ex, (KeyboardInterrupt, SystemExit)):
                         raise
@@ -159,6 +165,28 @@ def _work(item):
                             'expected': V.show(exp[i]), 'observed': V.show(o),
                             'calculate_gives': V.show(c) if c else None,
                             'unpop': unpop, 'hazard': hazard, 'overlap': overlap})
+            # what was pre-computed at compile time is never observable: after the model
+            # was used with OTHER cells supplied (every constant that is not an input of
+            # this function) the function still answers as it did the first time
+            if first_call is not None:
+                try:
+                    others = {G.node_name(i): float(7 + n_) for n_, i in enumerate(g.order)
+                              if g.cells[i]['k'] == 'c' and g.cells[i]['v']['k'] == 'n'
+                              and G.node_name(i) not in keys}
+                    if others:
+                        m.calculate(inputs=others)
+                        res = func(*first_call[0])
+                        r1 = [res] if len(outs) == 1 else list(res)
+                        again = [V.show(V.alpha(R._first(v.value if hasattr(v, 'ranges') else v))) for v in r1]
+                        out['n'] += 1
+                        if again != first_call[1]:
+                            out['problems'].append({
+                                'kind': 'compiled-changes-after-model-use', 'list': li, 'tuple': 0,
+                                'cell': outs[0], 'inputs': keys, 'expected': str(first_call[1]),
+                                'observed': str(again), 'unpop': unpop, 'hazard': hazard, 'overlap': overlap})
+                except BaseException as ex:  # noqa
+                    if isinstance(ex, (KeyboardInterrupt, SystemExit)):
+                        raise
     finally:
         if tmp:
             shutil.rmtree(tmp, ignore_errors=True)
